@@ -582,6 +582,18 @@ def r_counter(P, chk):
         raise AnalysisBroken("pair matcher: no per-type counter array found (shortcut rewritten?)")
     cname = sorted(counters, key=lambda k: -len(counters[k]["inc"]))[0]
     C = counters[cname]
+    # the counter counts stack entries, of which there can be as many as tokens: its element type must not be narrower
+    # than the stack's own size field can need (a char / short wraps to 0 while openers are still on the stack)
+    decl = [x for x in f.walk() if x["k"] == "VarDecl" and x.get("n") == cname]
+    et = re.sub(r"\[.*$", "", (decl[0].get("t") or "")) .replace("const", "").strip() if decl else ""
+    from .ub1 import type_range
+    tr = type_range(et)
+    wide = tr[1] >= 2 ** 31 - 1
+    chk.obligation(rid, "%s: counter element type `%s` can count every stack entry" % (cname, et), wide)
+    if not wide:
+        chk.violation(rid, "counter:width", f.where(decl[0]) if decl else f.where(), "the opener counter `%s` has element type `%s`: with "
+                      "more stacked openers of one type than it can hold it wraps to 0 and the shortcut reports that no opener is "
+                      "available - a well-formed closer is left unmatched" % (cname, et))
     pushes = list(f.calls("stack_push"))
     pops = list(f.calls("stack_pop"))
     if not pushes:
